@@ -285,6 +285,9 @@ Section BlockGenProofs.
     Definition bg_pool_costs_ok (l : list bg_txn) : Prop :=
       forall t c, In t l -> bt_cost t = Some c -> 0 <= c < 2 ^ 63.
 
+    (* the pool iteration budgets with the cost the verifier will sum *)
+    Definition bg_pool_gcost_ok (l : list bg_txn) : Prop := forall t, In t l -> bt_gcost t = bt_cost t.
+
     (* ---------- the iteration over the pool ---------- *)
     Lemma bg_iterate_inv pool g g1 :
       (forall t, In t pool -> bt_fname t = 0 -> Q t) -> bg_inv g ->
@@ -294,7 +297,9 @@ Section BlockGenProofs.
       - inversion He; subst; auto.
       - unfold bg_iter_step in He.
         destruct (bt_valbig t); try discriminate.
-        destruct (bt_cost t) as [c|]; [|apply (IH g); auto].
+        destruct (bt_gcost t) as [c|]; [|apply (IH g); auto].
+        destruct (bc_fee cfg && negb (bt_exempt t) && (bt_fee t <? Z.max (bc_minfee cfg) (bt_gfee t)));
+          [apply (IH _ (fun x Hx => Hq x (or_intror Hx)) (bg_inv_mark_invalid g t Hi) He)|].
         destruct (Z.eqb_spec (bt_fname t) 0) as [Efn|Efn]; simpl in He;
           [|apply (IH _ (fun x Hx => Hq x (or_intror Hx)) (bg_inv_mark_invalid g t Hi) He)].
         destruct (bg_wrap (bc_maxcost cfg - ti_cost (gs_tii g)) <=? c); [apply (IH g); auto|].
@@ -309,25 +314,31 @@ Section BlockGenProofs.
     Qed.
 
     Lemma bg_iterate_cinv pool g g1 :
-      bg_pool_costs_ok pool -> bg_cinv g ->
+      bg_pool_gcost_ok pool -> bg_pool_costs_ok pool -> bg_cinv g ->
       bg_iterate state apply snonce cfg g pool = Some g1 -> bg_cinv g1.
     Proof.
-      revert g. induction pool as [|t r IH]; simpl; intros g Hq Hi He.
+      revert g. induction pool as [|t r IH]; simpl; intros g Hg Hq Hi He.
       - inversion He; subst; auto.
       - assert (Hq' : bg_pool_costs_ok r) by (intros x c Hx; apply Hq; right; auto).
+        assert (Hg' : bg_pool_gcost_ok r) by (intros x Hx; apply Hg; right; auto).
+        specialize (IH) as IH0. assert (IH' : forall g, bg_cinv g -> bg_iterate state apply snonce cfg g r = Some g1 -> bg_cinv g1)
+          by (intros g' H1 H2; exact (IH0 g' Hg' Hq' H1 H2)). clear IH IH0.
         unfold bg_iter_step in He.
         destruct (bt_valbig t); try discriminate.
-        destruct (bt_cost t) as [c|] eqn:Ec; [|apply (IH g); auto].
+        destruct (bt_gcost t) as [c|] eqn:Egc; [|apply (IH' g); auto].
+        assert (Ec : bt_cost t = Some c) by (rewrite <- (Hg t (or_introl eq_refl)); exact Egc).
+        destruct (bc_fee cfg && negb (bt_exempt t) && (bt_fee t <? Z.max (bc_minfee cfg) (bt_gfee t)));
+          [apply (IH' _ (bg_cinv_mark_invalid g t Hi) He)|].
         destruct (Z.eqb_spec (bt_fname t) 0) as [Efn|Efn]; simpl in He;
-          [|apply (IH _ Hq' (bg_cinv_mark_invalid g t Hi) He)].
-        destruct (bg_wrap (bc_maxcost cfg - ti_cost (gs_tii g)) <=? c) eqn:El; [apply (IH g); auto|].
+          [|apply (IH' _ (bg_cinv_mark_invalid g t Hi) He)].
+        destruct (bg_wrap (bc_maxcost cfg - ti_cost (gs_tii g)) <=? c) eqn:El; [apply (IH' g); auto|].
         destruct (process cfg g t) as [g2 ok] eqn:Ep.
         destruct ok; simpl in He.
         + pose proof (bg_cinv_attempt _ _ _ _ Hi Ec (Hq t c (or_introl eq_refl) Ec) El Ep) as Hi3.
           destruct (bc_maxbytes cfg <=? ti_bytes (gs_tii g2)).
           * inversion He; subst; auto.
-          * apply (IH _ Hq' Hi3 He).
-        + apply (IH _ Hq' (bg_cinv_fail _ _ _ Hi Ep) He).
+          * apply (IH' _ Hi3 He).
+        + apply (IH' _ (bg_cinv_fail _ _ _ Hi Ep) He).
     Qed.
 
     (* ---------- the loop over currentTxns ---------- *)
@@ -477,6 +488,7 @@ Section BlockGenProofs.
 
   Record bg_pool_ok (pool : list bg_txn) : Prop := {
     po_valid : forall t, In t pool -> bt_valid t = true;
+    po_gcost : bg_pool_gcost_ok pool;
     po_costs : bg_pool_costs_ok pool
   }.
 
@@ -515,12 +527,12 @@ Section BlockGenProofs.
   Qed.
 
   Lemma bg_generate_cost cfg st0 pool bis bic b :
-    bg_bis_ok cfg pool bis bic -> bg_pool_costs_ok pool ->
+    bg_bis_ok cfg pool bis bic -> bg_pool_gcost_ok pool -> bg_pool_costs_ok pool ->
     bg_generate state apply snonce root chg cfg st0 pool bis = GenOk b ->
     Forall bg_cost_ok (map fst (bk_txns b)) /\
     exists s, bg_sum_exact (map fst (bk_txns b)) = Some s /\ 0 <= s <= bc_maxcost cfg.
   Proof.
-    intros Hb Hpc. unfold bg_generate. intros H.
+    intros Hb Hgc Hpc. unfold bg_generate. intros H.
     assert (Hbic0 : 0 <= bic) by (apply (bg_sum_exact_nonneg _ _ (bo_cost _ _ _ _ Hb) (bo_sum _ _ _ _ Hb))).
     pose proof (bo_max _ _ _ _ Hb) as Hmax. pose proof (bo_le _ _ _ _ Hb) as Hle.
     rewrite (bg_sum_costs_exact bis 0 bic (bo_cost _ _ _ _ Hb) (bo_sum _ _ _ _ Hb)) in H by lia.
@@ -536,7 +548,7 @@ Section BlockGenProofs.
     assert (Hc0 : bg_cinv cfg bic g0).
     { split; [constructor|]. exists 0. simpl. repeat split; auto; lia. }
     pose proof (bg_iterate_inv cfg st0 _ pool g0 g1 (fun t Ht Hf => conj Ht Hf) Hi0 E1) as Hi1.
-    pose proof (bg_iterate_cinv cfg bic Hmax Hbic0 pool g0 g1 Hpc Hc0 E1) as Hc1.
+    pose proof (bg_iterate_cinv cfg bic Hmax Hbic0 pool g0 g1 Hgc Hpc Hc0 E1) as Hc1.
     pose proof (bg_cur_loop_inv cfg st0 _ _ _ _ _ Hi1 E2) as Hi2.
     pose proof (bg_cur_loop_cinv cfg st0 _ bic Hmax Hbic0 _ _ _ _ (fun t c Ht => Hpc t c (proj1 Ht)) Hi1 Hc1 E2) as Hc2.
     rewrite (bg_trim_id cfg st0 _ g2 Hi2).
@@ -559,7 +571,7 @@ Section BlockGenProofs.
   Proof.
     intros Hp Hb Hg.
     destruct (bg_generate_facts _ _ _ _ _ Hg) as [[pp [bp [Hsplit [Hpool [Hbp [Hnd Htol]]]]]] [st' [Hrep [Hroot Hchg]]]].
-    destruct (bg_generate_cost _ _ _ _ _ _ Hb (po_costs _ Hp) Hg) as [Hcok [s [Hs Hsle]]].
+    destruct (bg_generate_cost _ _ _ _ _ _ Hb (po_gcost _ Hp) (po_costs _ Hp) Hg) as [Hcok [s [Hs Hsle]]].
     pose proof (bo_max _ _ _ _ Hb) as Hmax.
     unfold bg_verify.
     assert (Etx : map fst (bk_txns b) = map fst pp ++ map fst bp) by (rewrite Hsplit, map_app; auto).
@@ -630,11 +642,11 @@ Section BlockGenProofs.
   Qed.
 
   Theorem bg_cost_le_limit cfg st0 pool bis bic b :
-    bg_bis_ok cfg pool bis bic -> bg_pool_costs_ok pool ->
+    bg_bis_ok cfg pool bis bic -> bg_pool_gcost_ok pool -> bg_pool_costs_ok pool ->
     bg_generate state apply snonce root chg cfg st0 pool bis = GenOk b ->
     exists s, bg_sum_exact (map fst (bk_txns b)) = Some s /\ s <= bc_maxcost cfg.
   Proof.
-    intros Hb Hpc Hg. destruct (bg_generate_cost _ _ _ _ _ _ Hb Hpc Hg) as [_ [s [Hs Hle]]].
+    intros Hb Hgc Hpc Hg. destruct (bg_generate_cost _ _ _ _ _ _ Hb Hgc Hpc Hg) as [_ [s [Hs Hle]]].
     exists s. split; auto. lia.
   Qed.
 
@@ -713,7 +725,9 @@ Section BlockGenProofs.
       - inversion He; subst; auto.
       - unfold bg_iter_step in He.
         destruct (bt_valbig t); try discriminate.
-        destruct (bt_cost t) as [c|]; [|apply (IH g); auto].
+        destruct (bt_gcost t) as [c|]; [|apply (IH g); auto].
+        destruct (bc_fee cfg && negb (bt_exempt t) && (bt_fee t <? Z.max (bc_minfee cfg) (bt_gfee t)));
+          [apply (IH (bg_mark_invalid state g t)); auto|].
         destruct (negb (bt_fname t =? 0)); [apply (IH (bg_mark_invalid state g t)); auto|].
         destruct (bg_wrap (bc_maxcost cfg - ti_cost (gs_tii g)) <=? c); [apply (IH g); auto|].
         destruct (process cfg g t) as [g2 ok] eqn:Ep.
